@@ -87,6 +87,18 @@ func New(prop, level string) *Run {
 		}
 	}
 	r.Replay = os.Getenv("VERIF_REPLAY")
+	if r.Replay != "" {
+		// A replay runs in the tier its artefact came from: scenario sets differ per tier and a
+		// thorough-tier scenario does not exist in a quick run.
+		if b, err := os.ReadFile(r.Replay); err == nil {
+			var a struct {
+				Tier string `json:"tier"`
+			}
+			if json.Unmarshal(b, &a) == nil && (a.Tier == "quick" || a.Tier == "thorough") {
+				r.Tier = a.Tier
+			}
+		}
+	}
 	// A check made of several programs: every part but the last writes its results to a part
 	// file (same format as a shard) which the last part merges with MergeParts.
 	if p := os.Getenv("VERIF_PART_OUT"); p != "" {
